@@ -110,3 +110,173 @@ REG.contract(
     note="terminates for every pointer graph (lexicographic variant), only seeks to strictly earlier offsets, "
          "escaping exceptions are FormError (BadPointer, BadLabelType, NameTooLong) only",
 )
+
+# ----------------------------------------------------------------------------- C06: canonical order
+
+
+def ISABS(x):
+    return f"(len({x}.labels) > 0 and {x}.labels[len({x}.labels) - 1] == b'')"
+
+
+def LAB(x, k):
+    """label k counted from the right (0 = most significant)"""
+    return f"lower({x}.labels[len({x}.labels) - 1 - ({k})])"
+
+
+L1, L2 = "len(self.labels)", "len(other.labels)"
+MINL = f"({L1} if {L1} < {L2} else {L2})"
+REL, ORD, N = "result[0]", "result[1]", "result[2]"
+
+FULLCOMPARE_POST = [
+    # different relativity: relative sorts first, nothing in common
+    f"(not ({ISABS('self')} != {ISABS('other')})) or ({REL} == NameRelation.NONE and {N} == 0 and {ORD} == (1 if {ISABS('self')} else -1))",
+    # same relativity
+    f"({ISABS('self')} != {ISABS('other')}) or (0 <= {N} and {N} <= {MINL})",
+    f"({ISABS('self')} != {ISABS('other')}) or all({LAB('self', 'm')} == {LAB('other', 'm')} for m in range({N}))",
+    f"({ISABS('self')} != {ISABS('other')}) or {N} == {MINL} or {LAB('self', N)} != {LAB('other', N)}",
+    f"({ISABS('self')} != {ISABS('other')}) or (not {ORD} < 0) or ({N} < {MINL} and blt({LAB('self', N)}, {LAB('other', N)})) or ({N} == {L1} and {L1} < {L2})",
+    f"({ISABS('self')} != {ISABS('other')}) or (not {ORD} > 0) or ({N} < {MINL} and blt({LAB('other', N)}, {LAB('self', N)})) or ({N} == {L2} and {L2} < {L1})",
+    f"({ISABS('self')} != {ISABS('other')}) or (not {ORD} == 0) or ({N} == {L1} and {L1} == {L2})",
+    f"({ISABS('self')} != {ISABS('other')}) or ({REL} == NameRelation.EQUAL) == ({N} == {L1} and {L1} == {L2})",
+    f"({ISABS('self')} != {ISABS('other')}) or ({REL} == NameRelation.SUBDOMAIN) == ({N} == {L2} and {L2} < {L1})",
+    f"({ISABS('self')} != {ISABS('other')}) or ({REL} == NameRelation.SUPERDOMAIN) == ({N} == {L1} and {L1} < {L2})",
+    f"({ISABS('self')} != {ISABS('other')}) or ({REL} == NameRelation.COMMONANCESTOR) == (0 < {N} and {N} < {MINL})",
+    f"({ISABS('self')} != {ISABS('other')}) or ({REL} == NameRelation.NONE) == (0 == {N} and {N} < {MINL})",
+]
+
+REG.contract(
+    "dns.name.Name.fullcompare",
+    params={"self": NAME, "other": NAME},
+    raises=[],
+    returns=T.fixed(T.int, T.int, T.int),
+    loops={
+        0: loop(
+            invariant=[
+                "nlabels >= 0 and l >= 0 and order == 0 and namereln == NameRelation.NONE",
+                f"ldiff == {L1} - {L2}",
+                f"l1 == {L1} - nlabels and l2 == {L2} - nlabels",
+                f"l == ({L1} if ldiff < 0 else {L2}) - nlabels",
+                f"all({LAB('self', 'm')} == {LAB('other', 'm')} for m in range(nlabels))",
+            ],
+            decreases=["l"],
+        )
+    },
+    ensures=FULLCOMPARE_POST,
+    props=["C06"],
+    note="total correctness: the result is the RFC 4034 6.1 comparison (labels right to left, ASCII-lowered "
+         "octet order, relative before absolute), n is the longest common case-insensitive suffix, rel per its definition",
+)
+
+SAMEREL = f"({ISABS('self')} == {ISABS('other')})"
+SUFFIX_OF_SELF = f"({L2} <= {L1} and all({LAB('self', 'm')} == {LAB('other', 'm')} for m in range({L2})))"
+
+REG.contract(
+    "dns.name.Name.is_subdomain",
+    params={"self": NAME, "other": NAME},
+    returns=T.bool,
+    ensures=[
+        f"(not result) or ({SAMEREL} and {SUFFIX_OF_SELF})",
+        f"result or not ({SAMEREL} and {SUFFIX_OF_SELF})",
+    ],
+    props=["C06"],
+    note="is_subdomain(o) iff same relativity and o's labels are a case-insensitive suffix of self's",
+)
+
+PREFIX_OF_OTHER = f"({L1} <= {L2} and all({LAB('self', 'm')} == {LAB('other', 'm')} for m in range({L1})))"
+REG.contract(
+    "dns.name.Name.is_superdomain",
+    params={"self": NAME, "other": NAME},
+    returns=T.bool,
+    ensures=[
+        f"(not result) or ({SAMEREL} and {PREFIX_OF_OTHER})",
+        f"result or not ({SAMEREL} and {PREFIX_OF_OTHER})",
+    ],
+    props=["C06"],
+)
+
+EQCI = f"({L1} == {L2} and all({LAB('self', 'm')} == {LAB('other', 'm')} for m in range({L1})))"
+for op, expr in (("__eq__", "{e}"), ("__ne__", "not {e}")):
+    REG.contract(
+        f"dns.name.Name.{op}",
+        params={"self": NAME, "other": NAME},
+        returns=T.bool,
+        ensures=[
+            "(not result) or (" + expr.format(e=EQCI) + ")" if op == "__eq__" else f"result or {EQCI}",
+            f"result or not {EQCI}" if op == "__eq__" else f"(not result) or not {EQCI}",
+        ],
+        props=["C06", "C07"],
+        note="names are equal iff they have the same number of labels and the labels differ at most in ASCII case",
+    )
+
+REG.contract(
+    "dns.name.Name.concatenate",
+    params={"self": NAME, "other": NAME},
+    raises=[
+        ("dns.name.AbsoluteConcatenation", f"{ISABS('self')} and {L2} > 0"),
+        ("dns.name.NameTooLong", "True", "may"),
+    ],
+    returns=NAME,
+    ensures=[
+        f"len(result.labels) == {L1} + {L2}",
+        f"all(result.labels[k] == self.labels[k] for k in range({L1}))",
+        f"all(result.labels[{L1} + k] == other.labels[k] for k in range({L2}))",
+    ],
+    props=["C01", "C06"],
+    note="result is a Name (class invariant: limits hold) whose labels are self's followed by other's; otherwise raises",
+)
+
+REG.contract(
+    "dns.name.Name.derelativize",
+    params={"self": NAME, "origin": NAME},
+    raises=[("dns.name.NameTooLong", "True", "may")],
+    returns=NAME,
+    ensures=[
+        f"(not {ISABS('self')}) or result is self",
+        f"{ISABS('self')} or (len(result.labels) == {L1} + len(origin.labels) "
+        f"and all(result.labels[k] == self.labels[k] for k in range({L1})) "
+        f"and all(result.labels[{L1} + k] == origin.labels[k] for k in range(len(origin.labels))))",
+    ],
+    props=["C01", "C06"],
+)
+
+ORIGIN_SUFFIX = (f"({ISABS('self')} == {ISABS('origin')} and len(origin.labels) <= {L1} and "
+                 f"all({LAB('self', 'm')} == {LAB('origin', 'm')} for m in range(len(origin.labels))))")
+REG.contract(
+    "dns.name.Name.relativize",
+    params={"self": NAME, "origin": NAME},
+    raises=[],
+    returns=NAME,
+    ensures=[
+        f"{ORIGIN_SUFFIX} or result is self",
+        f"(not {ORIGIN_SUFFIX}) or (len(result.labels) == {L1} - len(origin.labels) "
+        f"and all(result.labels[k] == self.labels[k] for k in range({L1} - len(origin.labels))))",
+    ],
+    props=["C01", "C06"],
+    note="never raises: removing a suffix keeps every limit; the result is the name without origin's labels iff it is a subdomain",
+)
+
+REG.contract(
+    "dns.name.Name.parent",
+    params={"self": NAME},
+    raises=[("dns.name.NoParent", f"{L1} == 0 or ({L1} == 1 and self.labels[0] == b'')")],
+    returns=NAME,
+    ensures=[
+        f"len(result.labels) == {L1} - 1",
+        f"all(result.labels[k] == self.labels[k + 1] for k in range({L1} - 1))",
+    ],
+    props=["C01", "C06"],
+)
+
+REG.contract(
+    "dns.name.Name.split",
+    params={"self": NAME, "depth": T.int},
+    raises=[("builtins.ValueError", f"depth < 0 or depth > {L1}")],
+    returns=T.fixed(NAME, NAME),
+    ensures=[
+        f"len(result[0].labels) == {L1} - depth and len(result[1].labels) == depth",
+        f"all(result[0].labels[k] == self.labels[k] for k in range({L1} - depth))",
+        f"all(result[1].labels[k] == self.labels[{L1} - depth + k] for k in range(depth))",
+    ],
+    props=["C06"],
+    note="prefix ++ suffix == labels; ValueError iff depth out of range",
+)
